@@ -19,47 +19,47 @@ def check(pid, level, text, design_ref, note, technique, engine="avrosim"):
 
 checks = [
     check("C04", "exploration",
-          "Seeded search over fault-derived inputs (hostile lengths/counts/indices spliced into valid encodings, bit flips, truncation, nesting streams up to 200000 levels) x limit configurations x slice/reader paths, each decode executed in a child worker process with allocator, stack, source-step and callback monitors; two-sided limit oracles on valid encodings. Sampling, not proof: the 'every byte string' clause is sampled, the resource clauses are what the simulation decides.",
+          "Seeded search over fault-derived inputs (hostile lengths/counts/indices spliced into valid encodings, bit flips, truncation, nesting streams up to 200000 levels) x limit configurations x slice/reader paths, each decode executed in a child worker process with allocator, stack, source-step and callback monitors; two-sided limit oracles on valid encodings. Sampling, not proof: the 'every byte string' clause is sampled, the resource clauses are what the simulation decides. Long streams of valid datums through ONE deserializer state under limits each datum just fits (limits are per datum; memory may not grow with the number of datums), nesting streams retried on one state after every refusal, a refusing caller whose errors quote the value.",
           "DESIGN.md §4 C04",
           "Trusts the reference datum encoder (to aim hostile numbers and to know which inputs are valid), the SimAlloc accounting, an 8 MiB main-thread stack in worker processes, and a 60 s wall-clock hang detector outside the simulated system; the ignoring target is the simulator's own counting visitor, so unbounded work is normally seen as a callback count first.",
           "deterministic simulation: seeded fault-derived inputs + simulated source/allocator monitors in isolated worker processes"),
     check("C05", "exploration",
-          "Seeded search over writer histories x codec x level x approx_block_size x flush/push patterns, files read back through the slice reader and simulated stream readers (refill schedules down to 1 byte, cuts inside block headers / codec trailers / sync markers, BufReader capacities around 8192); oracle: every call Ok, exactly the written values then a stable end of stream, same user metadata. Fault-free configuration of the container world, run separately from C15-C17.",
+          "Seeded search over writer histories x codec x level x approx_block_size x flush/push patterns, files read back through the slice reader and simulated stream readers (refill schedules down to 1 byte, cuts inside block headers / codec trailers / sync markers, BufReader capacities around 8192); oracle: every call Ok, exactly the written values then a stable end of stream, same user metadata. Fault-free configuration of the container world, run separately from C15-C17. Long histories (hundreds of blocks, more than 65 535 objects in one block, size and compressibility patterns over the history), contents from all zeros to incompressible with compressed lengths aimed at the encoders' buffer marks, and earlier writers on the same configuration (also ones whose build failed) are part of the sampled space.",
           "DESIGN.md §4 C05",
           "Trusts the simulator's Val/Presented/Capture caller stubs (canonical and documented-equivalent serde calls; capturing and partly ignoring targets); xz presets 7-9 only in a small fraction of scenarios (cost).",
           "deterministic simulation: seeded op histories + simulated BufRead refill schedules, real writer/reader/codecs"),
     check("C06", "exploration",
-          "Refinement against an independent reference container model written from the specification: direction A, every crate-written file must be accepted by the reference parser (magic, metadata, codec framing through the codec libraries' own APIs, CRC-32 big-endian over uncompressed data, sync, counts) and decode to the written values; direction B, reference-written files under PRNG-chosen free choices (partitioning, metadata order/splitting/negative counts, absent avro.codec, datum block layouts) and apache-avro-written files must be read by the crate through slice and simulated stream readers; apache-avro must read the crate's files.",
+          "Refinement against an independent reference container model written from the specification: direction A, every crate-written file must be accepted by the reference parser (magic, metadata, codec framing through the codec libraries' own APIs, CRC-32 big-endian over uncompressed data, sync, counts) and decode to the written values; direction B, reference-written files under PRNG-chosen free choices (partitioning, metadata order/splitting/negative counts, absent avro.codec, datum block layouts) and apache-avro-written files must be read by the crate through slice and simulated stream readers; apache-avro must read the crate's files. Long files in both directions, including reference-written runs of thousands of blocks that hold no objects.",
           "DESIGN.md §4 C06",
           "The reference model (written from the specification) is the first judge; apache-avro 0.17 is linked as second implementation on the schema subset with an obvious Value mapping (no logical types, no zero-width values, no maps in files it writes).",
           "deterministic simulation: refinement against an executable reference model under seeded histories and refill schedules"),
     check("C11", "fault_enumeration",
-          "For every generated (schema, bytes, target) the refill-partition space is enumerated: every Fixed(k) for k=1..len (len<=64), one refill boundary after every byte inside every multi-byte token, random cyclic plans, BufReader capacities 1..16; the reader outcome (value, bytes consumed, or Err) must equal the slice outcome. Same for single-object input and for whole container files of all six codecs (valid: call-by-call equality; damaged: outcome class + prefix relation). Scenarios are sampled, the schedule space of each is enumerated.",
+          "For every generated (schema, bytes, target) the refill-partition space is enumerated: every Fixed(k) for k=1..len (len<=64), one refill boundary after every byte inside every multi-byte token, random cyclic plans, BufReader capacities 1..16; the reader outcome (value, bytes consumed, or Err) must equal the slice outcome. Same for single-object input and for whole container files of all six codecs (valid: call-by-call equality; damaged: outcome class + prefix relation). Scenarios are sampled, the schedule space of each is enumerated. Long streams of datums are decoded through one deserializer state per path (slice against eight reader plans), and continued after errors for as long as both paths stand at the same position (values compared).",
           "DESIGN.md §4 C11",
           "max_alloc_size=1MiB / max_seq_size=100000 on both paths; error text and consumption-on-error are not compared.",
           "deterministic simulation: exhaustive enumeration of BufRead refill partitions per seeded scenario, slice path as oracle"),
     check("C14", "fault_enumeration",
-          "Histories of successful and failing serializations on one SerializerConfig; the failure is injected at every serde-call index (five caller-failure kinds incl. abandoned sequences) and after every sink byte, for every attempt of the history (sampled above a cap), plus multi-failure histories; after the failing attempt and at the end two probes must be byte-identical to a fresh configuration's output, successful attempts too; no panic with debug assertions live.",
+          "Histories of successful and failing serializations on one SerializerConfig; the failure is injected at every serde-call index (five caller-failure kinds incl. abandoned sequences) and after every sink byte, for every attempt of the history (sampled above a cap), plus multi-failure histories; after the failing attempt and at the end two probes must be byte-identical to a fresh configuration's output, successful attempts too; no panic with debug assertions live. One long history per configuration in one scenario in forty (hundreds of attempts, a drawn share failing); re-entrant serializations; successive container Writers of other codecs and levels on the configuration.",
           "DESIGN.md §4 C14",
           "Main lane built with debug-assertions and overflow-checks on, second lane built as the crate ships (both off); values conform to the schema so the only failures are injected ones.",
           "deterministic simulation: enumeration of caller-failure and sink-fault points over seeded serialization histories, fresh configuration as reference"),
     check("C15", "exploration",
-          "Seeded writer histories with failing values (failure at an arbitrary serde call / depth), pushes, flushes, into_inner / drop x codec x approx_block_size; after EVERY API call that returned, the bytes accepted by the sink (= what survives a crash there) are judged by the reference container parser and datum decoder: complete valid file, values a prefix of the accepted ones, all of them after finish_block / into_inner / drop, failed values contribute nothing, snapshots monotone.",
+          "Seeded writer histories with failing values (failure at an arbitrary serde call / depth), pushes, flushes, into_inner / drop x codec x approx_block_size; after EVERY API call that returned, the bytes accepted by the sink (= what survives a crash there) are judged by the reference container parser and datum decoder: complete valid file, values a prefix of the accepted ones, all of them after finish_block / into_inner / drop, failed values contribute nothing, snapshots monotone. Long histories (hundreds of calls, 65 536 and more objects in one block) are judged call by call too.",
           "DESIGN.md §4 C15",
-          "Sink accepts everything (sink faults are C16's) except, in a quarter of the scenarios, one cleanly refused write of an explicit finish_block followed by a healthy sink (the statement's 'whenever a call has returned without error' covers the calls after it); crash = nothing after the last accepted byte exists.",
+          "Sink accepts everything (sink faults are C16's) except, in a quarter of the scenarios, one cleanly refused write of an explicit finish_block (in half of those a second refusal, at the retry or one or two flushes later) followed by a healthy sink; a value whose call returned the sink's error may or may not reach the file, every call that returned Ok must (the statement's 'whenever a call has returned without error' covers the calls after it); crash = nothing after the last accepted byte exists.",
           "deterministic simulation: crash-point snapshots after every call of seeded histories, judged by a reference model"),
     check("C16", "fault_enumeration",
-          "Per workload: accept plans Fixed(k) for 12 values of k around the block-header and sync-marker sizes plus random cycles, on sinks with and without write_vectored; ErrorKind::Interrupted at every sink call index (singly and in bursts); hard error (3 kinds) and Ok(0) at every sink call index. Oracle: schedule-only configurations give every call Ok and a byte-identical stream; a hard fault makes the call during which it fired return Err with the bytes accepted before it a prefix of the baseline.",
+          "Per workload: accept plans Fixed(k) for 12 values of k around the block-header and sync-marker sizes plus random cycles, on sinks with and without write_vectored; ErrorKind::Interrupted at every sink call index (singly and in bursts); hard error (3 kinds) and Ok(0) at every sink call index. Oracle: schedule-only configurations give every call Ok and a byte-identical stream; a hard fault makes the call during which it fired return Err with the bytes accepted before it a prefix of the baseline. Interruptions every 2nd / 3rd / 5th call over the writer's whole life; long histories; big-blob workloads whose compressed length is aimed at the encoders' buffer marks.",
           "DESIGN.md §4 C16",
           "After a CLEAN hard failure (nothing of the failing call accepted) the history continues on the recovered sink and the final stream must be a valid file (reference parser) holding every other call's values in order plus all or none of the failed call's (serialize_all excepted); after a failure that accepted part of a block nothing more is asserted; faults are not scheduled inside Drop.",
           "deterministic simulation: enumeration of sink accept schedules and fault points over seeded writer histories"),
     check("C17", "fault_enumeration",
-          "Per valid file (crate- or reference-written, all codecs): truncation at every byte offset x 5 reader kinds, every sync byte damaged, every block count and size rewritten to 8 hostile values, snappy CRC / payload damage, a byte xored at every offset, an I/O error (Other / UnexpectedEof / Interrupted) at every source call index of 4 stream readers. Oracles per fault class: genuine prefix only, corruption reported, error reported once then end of stream, no panic / endless loop, Ok(None) sticky.",
+          "Per valid file (crate- or reference-written, all codecs): truncation at every byte offset x 5 reader kinds, every sync byte damaged, every block count and size rewritten to 8 hostile values, snappy CRC / payload damage, a byte xored at every offset, an I/O error (Other / UnexpectedEof / Interrupted) at every source call index of 4 stream readers. Oracles per fault class: genuine prefix only, corruption reported, error reported once then end of stream, no panic / endless loop, Ok(None) sticky. Long files (hundreds of blocks, runs of empty blocks, more than 65 535 objects in a block) with the per-block classes sampled; two faults at once (cut and damaged byte).",
           "DESIGN.md §4 C17",
           "Count/size oracles on schemas whose values are >= 1 byte wide and have no zero-width array elements; a CRC-32 collision would be reported.",
           "deterministic simulation: enumeration of truncation / corruption / I/O-error fault points over seeded files"),
     check("C18", "fault_enumeration",
-          "Per (schema, value): format check (C3 01 ++ fingerprint ++ exactly the datum bytes, reference-decoded; little-endian CRC-64-AVRO cross-check on the plain subset), intact round trip under reader plans that put refill boundaries at every header offset, truncation at every length, every header byte set to every other value (2550 damages), reads under schemas with a different canonical form, sink faults at every call index of to_single_object.",
+          "Per (schema, value): format check (C3 01 ++ fingerprint ++ exactly the datum bytes, reference-decoded; little-endian CRC-64-AVRO cross-check on the plain subset), intact round trip under reader plans that put refill boundaries at every header offset, truncation at every length, every header byte set to every other value (2550 damages), reads under schemas with a different canonical form, sink faults at every call index of to_single_object. Hundreds of messages through one configuration and one source; names outside ASCII; failing schema constructions on the same thread before one parse in four.",
           "DESIGN.md §4 C18",
           "Canonical-form correctness for all schemas is C08's question; CRC-64 collisions between distinct canonical forms are assumed away.",
           "deterministic simulation: enumeration of header truncations / corruptions / refill boundaries / sink faults per seeded message"),
